@@ -502,7 +502,7 @@ func RunWorker(o Options) int {
 			// Types built with reflect.StructOf and the codecs cached for them are never freed:
 			// once the heap has grown past the limit the worker hands the rest of its shard to a
 			// fresh process (the supervisor resumes at the next index).
-			if sinceCheck++; sinceCheck >= 64 && !s.Serial {
+			if sinceCheck++; sinceCheck >= 16 {
 				sinceCheck = 0
 				var ms runtime.MemStats
 				runtime.ReadMemStats(&ms)
